@@ -1,6 +1,6 @@
 from typing import Set
 
-from autofit.database.query.condition import AbstractCondition, Table, info_table
+from autofit.database.query.condition import AbstractCondition, Table, info_table, escape
 from autofit.database.query.query import AbstractQuery
 
 
@@ -22,7 +22,7 @@ class InfoQueryCondition(AbstractCondition):
         return {info_table}
 
     def __str__(self):
-        return f"key = '{self.key}' AND value = '{self.value}'"
+        return f"key = '{escape(self.key)}' AND value = '{escape(self.value)}'"
 
 
 class InfoQuery(AbstractQuery):
